@@ -6,6 +6,7 @@ import Driver.Ops.Audit
 import Driver.Ops.Equity
 import Driver.Ops.Price
 import Driver.Ops.GitSel
+import Driver.Ops.Out
 /-! Line-protocol driver of the model: one JSON case per input line, one JSON answer per line.
     To add an op: write `Driver/Ops/<Name>.lean`, import it here, add one line to `opTable`
     (or to `outputTable` for a new output kind of op `run`). -/
@@ -30,7 +31,9 @@ def opTable : List (String × (Json → R Json)) := [
   ("hash", Ops.opHash),
   ("price", Ops.opPrice),
   ("parse", Ops.opParse),
-  ("gitsel", Ops.opGitSel)
+  ("gitsel", Ops.opGitSel),
+  ("out", Ops.opOut),
+  ("bufw", Ops.opBufw)
 ]
 
 def dispatch (j : Json) : R Json := do
